@@ -3,6 +3,7 @@
    takes each acknowledged operation as one transition and the harness checks that with process kills. *)
 From GK Require Import PropCheck.
 From GK.Proofs Require Import BaseLemmas RepoProofs RecoverProofs.
+From GK.Proofs Require PredProofs RepoProofs2.
 
 (* revert: exactly the dispatched-unfinished tasks change, to scheduled with dispatched_at cleared *)
 Theorem C13_revert_spec : forall id s, lookup id (map undispatch s) = omap undispatch (lookup id s).
@@ -53,3 +54,14 @@ Example C13_mark_as_done_refused_after_revert :
               ODispatch false (T 7000000 true) "t1"; ORevert] in
   snd (step cfg_ent (run cfg_ent ops) (ODone false (T 9000000 true) "t1" None)) = RErr ENotDispatched.
 Proof. vm_compute. reflexivity. Qed.
+
+(* executable form: the predicate evaluated on ent's observations holds of the model's own observation of every step;
+   obs_next_model: the state the check rebuilds from observed diffs is the specification's next state *)
+Theorem C13_model_satisfies_predicate : forall (c : cfg) (s : repo) (o : op),
+  wf_repo s -> op_ok s o -> p_C13 c s o (RepoProofs2.model_obs c s o) = true.
+Proof. exact PredProofs.model_obs_C13. Qed.
+Print Assumptions C13_model_satisfies_predicate.
+Theorem C13_observed_state_is_model_state : forall (c : cfg) (s : repo) (o : op),
+  wf_repo s -> op_ok s o -> obs_next s o (RepoProofs2.model_obs c s o) = fst (step c s o).
+Proof. exact PredProofs.obs_next_model. Qed.
+Print Assumptions C13_observed_state_is_model_state.
